@@ -49,6 +49,10 @@ CHECKS = {
    technique="TLA+ spec Encoding.tla (code-page tables as total functions, UTF-8 encoding, BOM-stripping reader over every chunking) checked by TLC; its tables are replayed on the real decoder (512 pairs) and used to build UTF-8 reference inputs; declared-encoding runs vs reference runs validated by TLC (Trace_Runs.tla)",
    text="TLC checks the BOM machine for every chunking of small inputs and the table axioms; the tables TLC emits are (i) compared with the real WrapEncoding decoder on all 512 (byte, encoding) pairs and (ii) used to convert inputs whose payloads cover all 256 byte values to UTF-8; for all 7 formats the run with the encoding declared must equal the run on the converted bytes with utf-8 declared, and a UTF-8 BOM must be invisible (also under 1-byte delivery). Exhaustive over single byte values, sampled over byte strings.",
    note="Trusted: TLC; x/text's decoder is bound to the table, not modelled. XML/JSON inputs are decoded by omniparser first and then by the format decoders, both sides of the comparison alike."),
+ "C17": dict(cat="model_checking", design="5/C17",
+   technique="TLC checks size stationarity of the stream-reader model (StreamSelect.tla via MC_Retention.tla) for k repeated records with and without filtered-out records; real transforms of 3000 / 200000 repeated records per format are probed for the node count reachable from the k-th record and validated by TLC (Trace_Retention.tla)",
+   text="Model: the partial tree at the k-th delivery has the same size for all k>=2 (k<=6/8) when nothing is attached outside the records; with separators attached outside records the model exhibits the accumulation. Code: 16 cases over all seven formats stream thousands (thorough: 200k) of records through the real Transform; the harness counts the nodes reachable from each probed record's root and TLC requires size_k <= max(size_1..8). One known finding (XML whitespace character data between records) is listed.",
+   note="Trusted: TLC; node count as the measure of retention (reader buffers are bounded by construction and not measured). Records are identical within a case."),
 }
 
 def main():
